@@ -12,6 +12,14 @@ pub fn line(l: &str) -> String {
                 let b = parse_rat(b).ok_or("bad-op")?;
                 Ok(format!("{}", h::bigrat_cmp(&a, &b)))
             }
+            ["from_f64", bits] => {
+                let bits: u64 = bits.parse().map_err(|_| "bad-op")?;
+                h::bigrat_from_f64(bits, &int).map(|v| show_rat(&v))
+            }
+            ["into_f64", a] => {
+                let a = parse_rat(a).ok_or("bad-op")?;
+                h::bigrat_into_f64(&a, &int).map(|b| b.to_string())
+            }
             ["try_as_usize", a] => {
                 let a = parse_rat(a).ok_or("bad-op")?;
                 h::bigrat_try_as_usize(&a, &int).map(|n| n.to_string())
